@@ -98,7 +98,7 @@ def run(chk):
             continue
         made += 1
         muts = ([gen.mutate_value(rng, base) for _ in range(6)] + [gen.mutate_structure(rng, base) for _ in range(5)]
-                + gen.mutate_targeted(rng, base)[:40 if chk.tier == 'quick' else 120])
+                + gen.mutate_targeted(rng, base)[:60 if chk.tier == 'quick' else 140])
         for kind, m in muts:
             if kind == "noop":
                 continue
